@@ -63,6 +63,51 @@ HARNESS(merge_prime_text_keeps_the_count, 14) {
 '''
 
 
+DOTS_HARNESS = r'''
+// D-C01-e.2: merging dots into an ellipsis touches nothing but runs of exactly three consecutive <mo>.</mo>
+HARNESS(merge_dots_keeps_everything_else, 10) {
+    let n = 1 + sym::below(NCHILD);
+    let row = dom::new_node(5);
+    let mut kinds = [0u8; NCHILD];
+    let mut i = 0;
+    while i < NCHILD {
+        if i < n {
+            let k = sym::below(3) as u8;                    // 0: <mo>.</mo>   1: <mo>+</mo>   2: <mi>x</mi>
+            kinds[i] = k;
+            let c = dom::new_node(if k == 2 { 0 } else { 7 });
+            c.set_text(if k == 0 { "." } else if k == 1 { "+" } else { "x" });
+            row.append_child_id(c.id);
+        }
+        i += 1;
+    }
+    let r = merge_dots(row);
+    let ch = r.children();
+    let m = ch.len();
+    cover!(m + 2 == n, "one ellipsis formed reachable");
+    cover!(m == n && n >= 4, "nothing merged in a row of four or more reachable");
+    // walk input and output together: every non-dot child survives in order; a child that disappears or becomes an ellipsis is one of three consecutive dots
+    let mut a = 0; let mut b = 0;
+    while a < n {
+        let id_a = row.id + 1 + a as u8;
+        if b < m && as_element(ch[b]).id == id_a {
+            let t = as_text(as_element(ch[b])).as_bytes();
+            if t.len() == 3 {       // became an ellipsis: it and the two following input children were dots
+                assert!(a + 2 < n && kinds[a] == 0 && kinds[a + 1] == 0 && kinds[a + 2] == 0, "an ellipsis was invented where there were not three consecutive dots");
+                a += 3; b += 1;
+            } else {
+                assert!(t.len() == 1 && ((kinds[a] == 0 && t[0] == 46u8) || (kinds[a] == 1 && t[0] == 43u8) || (kinds[a] == 2 && t[0] == 120u8)), "a token text was changed");
+                a += 1; b += 1;
+            }
+        } else {
+            assert!(false, "a child that is not part of a three-dot run was removed");
+            a += 1;
+        }
+    }
+    assert!(b == m, "children were added");
+}
+'''
+
+
 def api_msubsup(vals=None, out=None):
     res = mcprobe([("mathml", "<math><msubsup><mi>x</mi><mn>1</mn><mrow/></msubsup></math>"), ("mathml", "<math><mi>a</mi><mo>+</mo><msubsup><mi>x</mi><mn>1</mn><mtext></mtext></msubsup></math>")])
     bad = [r for r in res if r[0] != "OK" or ">x<" not in r[1] or ">1<" not in r[1]]
@@ -102,3 +147,21 @@ def build(run):
     run.kani(crate_p, [dict(id="K-C01-a.merge_prime_text", harness="merge_prime_text_keeps_the_count", api=api_prime, role=lambda v, o: "prime-count-changed",
                             covers=["five primes reachable", "text with a non-prime reachable"],
                             claim="all primes => output consists of primes with the same total count; otherwise the text is unchanged")], timeout=600)
+
+    # ---- D-C01-e.2: merge_dots over the model DOM ---------------------------------------------------------------------------------
+    md = cm.find("fn merge_dots")
+    run.uses(md)
+    nchild = 5 if run.tier == "quick" else 6
+    crate_d = kani_run.Crate("c01dots", prelude.MINIDOM + md.text + DOTS_HARNESS.replace("NCHILD", str(nchild)))
+    run.bound("D-C01-e.2", "rows of 1..%d children, each <mo>.</mo>, <mo>+</mo> or <mi>x</mi> (model DOM)" % nchild)
+    run.assume("sxd_document replaced by the model DOM (lib/prelude.py MINIDOM) incl. leaf texts, set_text and remove_from_parent")
+
+    def api_dots(vals, out):
+        import re as _re
+        res = mcprobe([("mathml", "<math><mi>a</mi><mo>.</mo><mi>b</mi><mo>.</mo><mi>c</mi><mo>.</mo><mi>d</mi></math>")])
+        leaves = "".join(_re.findall(r">([^<>\\n]+)</m[ion]>", res[0][1])) if res[0][0] == "OK" else ""
+        leaves = leaves.replace("&#x2062;", "").replace("&#x2061;", "")
+        return leaves != "a.b.c.d", {"script": "set_mathml(a . b . c . d as mi/mo tokens): every token must survive", "leaves": leaves}
+    run.kani(crate_d, [dict(id="D-C01-e.2.merge_dots", harness="merge_dots_keeps_everything_else", api=api_dots, role=lambda v, o: "dots-merge-deletes-a-token",
+                            covers=["one ellipsis formed reachable", "nothing merged in a row of four or more reachable"],
+                            claim="only three consecutive <mo>.</mo> become one ellipsis; every other child and text is untouched, in order")], timeout=900)
